@@ -34,7 +34,7 @@ def actions(prog):
     if P.get("arg"):
         acts += [("arg", 0), ("arg", 1)]
     if P.get("file"):
-        acts += [("file", 0), ("file", 1), ("file", 2)]
+        acts += [("file", 0), ("file", 1), ("file", 2), ("file", 3)]
     return acts
 
 
@@ -61,7 +61,13 @@ def cfg_key(cfg):
 
 
 def write_file(path, content_id):
-    """Content id i -> a file of size 10+i with logical mtime 1000+i (same id => same size and mtime => same File hash)."""
+    """Content id i -> a file of size 10+i with logical mtime 1000+i (same id => same size and mtime => same File hash).
+    Id 3 is id 0 rewritten 0.3 ms later with other bytes of the same length: another file state within the same millisecond."""
+    if content_id == 3:
+        with open(path, "w") as f:
+            f.write("y" * 10)
+        os.utime(path, ns=(1000 * 10**9 + 300_000, 1000 * 10**9 + 300_000))
+        return
     with open(path, "w") as f:
         f.write("x" * (10 + content_id))
     os.utime(path, (1000 + content_id, 1000 + content_id))
@@ -167,7 +173,7 @@ def run(ctx):
         "history_length": L, "program_names": progs_, "exhaustive": True,
         "rule": f"for each program (3-task chain, fan with duplicates, catch with recover, File consumer, versioned leaf, shallow top) every history "
         f"of {L} actions, each followed by a run on the shared backend (DB snapshot per history prefix): set any task to any of its bodies (edits and "
-        "reverts), publish a body under a new version, change the argument, rewrite the input file (new size and mtime); oracle: each run's "
+        "reverts), publish a body under a new version, change the argument, rewrite the input file (new size and mtime; or other bytes of the same size 0.3 ms later); oracle: each run's "
         "value or error equals the same configuration run on an empty backend",
         "samples": [{"program": w[0], "first_action": list(w[1])} for w in work[:3]],
     }, "assumptions": ["default completion schedule; a File's identity is (path, size, mtime) and rewrites change both size and mtime"]}
